@@ -32,7 +32,7 @@ def examples(tier):
 @st.composite
 def strategy_(draw, tier):
     base = draw(c10.strategy_(tier))
-    base["mode"] = draw(st.sampled_from(["dry", "dry", "reply_i", "reply_tty"]))
+    base["mode"] = draw(st.sampled_from(["dry", "dry", "reply_i", "reply_tty", "reply_tty_noctty"]))
     base["reply"] = draw(st.one_of(st.sampled_from(REPLIES),
                                    st.text(alphabet="yYnN \t", max_size=4).map(lambda s: s + "\n")))
     base["use_trash_dir"] = draw(st.booleans())
@@ -94,7 +94,7 @@ def run_case(case):
                          sorted(removed - printed)[:3]), **tags)
         rcls = "dry"
     else:
-        tty = mode == "reply_tty"
+        tty = {"reply_tty": True, "reply_tty_noctty": "noctty"}.get(mode, False)
         a = args if tty else ["-i"] + args
         sent = reply
         if tty:  # a terminal has no EOF after the text: end the line, or send ^D on an empty one
